@@ -7,7 +7,10 @@ and variance; NaN pattern / counters through the bookkeeping model (`transformLo
 import math
 import numpy as np
 
-from .common import frs, parse_nums, close, quiet
+from scipy.spatial.distance import pdist, squareform
+
+from .common import frs, fr, parse_nums, close, quiet
+from .common import guarded
 from . import krig
 
 INFO = dict(
@@ -30,6 +33,7 @@ def admissible(sel_impl, sel_model, row):
     return a == b
 
 
+@guarded
 def check_case(ctx, case):
     try:
         ok = krig.build(case)
@@ -122,6 +126,40 @@ def check_case(ctx, case):
         elif n_less + n_sing != int(np.sum(np.isnan(z))):
             ctx.violation('counters', 'counters do not add up to the number of NaN results', case)
     ctx.lean.ask(['c07', 'loop', ' '.join(kinds), frs(zs), frs(gs)], cb)
+
+    # the whole call through the end-to-end model (`krigeTransform`: neighbour search, sub-system, exact
+    # solve, bookkeeping composed inside Lean) - only when no equidistant tie at the cut was broken
+    # differently, because the result then legitimately depends on the choice
+    if all(sorted(impl_sel[i]) == sorted(mr.sel[i]) for i in range(len(targets))):
+        n = len(mr.coords)
+        g = ok.gamma_model
+        with quiet():
+            D = squareform(pdist(mr.coords, metric=mr.metric)) if n > 1 else np.zeros((1, 1))
+            G = np.array([[0.0 if a == b else float(g(D[a, b])) for b in range(n)] for a in range(n)])
+            G0 = np.array([[float(g(d)) for d in row] for row in mr.rows])
+
+        def cb2(f):
+            mz = parse_nums(f[0]) if f[0] else []
+            ms = parse_nums(f[1]) if f[1] else []
+            ctx.count('transform_e2e')
+            if [m is None for m in mz] != [bool(math.isnan(x)) for x in z] or \
+                    [m is None for m in ms] != [bool(math.isnan(x)) for x in sigma] or \
+                    int(f[2]) != n_less or int(f[3]) != n_sing:
+                ctx.violation('transform-e2e', 'NaN pattern / counters of the whole call differ from the end-to-end '
+                              'model: z %r sigma %r counters %d/%d, model %r %r %s/%s' % (
+                                  z.tolist(), sigma.tolist(), n_less, n_sing, f[0], f[1], f[2], f[3]), case)
+                return
+            for i in range(len(targets)):
+                cond = mr.cond.get(i, float('inf'))
+                if mz[i] is None or not math.isfinite(cond) or cond > 1e9:
+                    continue
+                tol = 1e-12 * cond + 1e-9
+                if abs(z[i] - float(mz[i])) > tol * scale_z or abs(sigma[i] - float(ms[i])) > tol * scale_s:
+                    ctx.violation('transform-e2e', 'target %d: implementation (z, sigma) = (%r, %r), end-to-end '
+                                  'model (%r, %r)' % (i, z[i], sigma[i], float(mz[i]), float(ms[i])), case)
+                    return
+        ctx.lean.ask(['c07', 'transform', fr(mr.rng_eff), str(case['min_points']), str(case['max_points']), str(n),
+                      frs(G.flatten()), frs(mr.values), frs(mr.rows.flatten()), frs(G0.flatten())], cb2)
 
 
 def run(ctx):
